@@ -130,6 +130,86 @@ def features_of(db):
     return fs
 
 
+def slice_oracles(R, db, res, extra=None):
+    """implementation-only oracles on the real slices in `res` (runner answer of op slice) of database `db`:
+    re-parse, self-containedness, and the independent verifier (lemma valid in db => valid in its slice)"""
+    n = 0
+    for s in res['slices']:
+        n += 1
+        sl = F.parse_db_str(s['ast'])
+        lab = s['label']
+        replay = dict(db=F.layout(G.db_tokens(db)), lemma=lab, slice=s['printed'], sd=res['sd'])
+        if extra:
+            replay.update(extra)
+        if s['reparse'] != s['ast']:
+            R.violation('slice:reparse-differs', 'a printed slice does not re-parse to the slice',
+                        dict(replay, reparse=s['reparse'], err=s['reparse_err']))
+            continue
+        probs = O.self_contained(db, sl, lab)
+        for p in probs:
+            sig = 'slice:not-self-contained:' + p.split(':')[0]
+            R.violation(sig, f'slice for {lab} is not self-contained: {p}', dict(replay, problem=p))
+        v_db = O.verify(db, lab)
+        if v_db[0]:
+            v_sl = O.verify(sl, lab)
+            R.hist['slice-oracle:verified'] = R.hist.get('slice-oracle:verified', 0) + 1
+            if not v_sl[0]:
+                R.violation('slice:proof-no-longer-verifies:' + v_sl[1].split(':')[0].split(' ')[0],
+                            f'proof of {lab} verifies in the database but not in its slice: {v_sl[1]}',
+                            dict(replay, reason=v_sl[1]))
+        else:
+            R.hist['slice-oracle:lemma-invalid-in-db'] = R.hist.get('slice-oracle:lemma-invalid-in-db', 0) + 1
+    return n
+
+
+def run_impl_isolated(reqs, hashseed='0'):
+    """one fresh implementation process per request"""
+    def one(req):
+        out, err = C.run_py('mm17_runner.py', [json.dumps(req)], hashseed=hashseed)
+        try:
+            return json.loads(out[0])
+        except (IndexError, ValueError):
+            return {'error': 'runner died', 'trace': err[-500:]}
+    with ThreadPoolExecutor(max_workers=C.NCPU) as ex:
+        return list(ex.map(one, reqs))
+
+
+def rename_db(db, ren):
+    """apply a token renaming to every string of a tuple AST"""
+    def f(x):
+        if isinstance(x, str):
+            return ren.get(x, x)
+        if isinstance(x, tuple):
+            # statement / term tags are single capital letters in position 0 of a tagged tuple
+            if x and isinstance(x[0], str) and len(x[0]) == 1 and x[0] in 'CVDFEAPBM':
+                return (x[0],) + tuple(f(y) for y in x[1:])
+            return tuple(f(y) for y in x)
+        return x
+    return tuple(f(s) for s in db)
+
+
+def history_sequences(seed, n):
+    """sequences of 2-3 databases that share symbol names in different roles: the variables of the first
+    are constants of the second (whose own variables are renamed apart); the third is the first again"""
+    seqs = []
+    for i in range(n):
+        r = C.rng_for(seed, f'{CID}:hist:{i}')
+        db1, _ = G.gen_db(r, dict(junk=0.0, normal_proofs=0.0))
+        db2, _ = G.gen_db(r, dict(junk=0.0, normal_proofs=0.0))
+        v1 = [v for s in db1 if s[0] == 'V' for v in s[1]]
+        v2 = [v for s in db2 if s[0] == 'V' for v in s[1]]
+        c2 = [c for s in db2 if s[0] == 'C' for c in s[1] if c not in ('(', ')', '|-', '#Pattern', 'wff')
+              and not c.startswith('#')]
+        ren = {v: 'q' + v for v in v2}
+        r.shuffle(c2)
+        for c, v in zip(c2[:r.randint(1, 3)], r.sample(v1, min(len(v1), 3))):
+            ren[c] = v                      # a variable name of db1 is a constant of db2
+        db2r = rename_db(db2, ren)
+        dbs = [db1, db2r] + ([db1] if i % 2 else [])
+        seqs.append([F.layout(G.db_tokens(d)) for d in dbs])
+    return seqs
+
+
 # ------------------------------------------------------------------------------------------------
 def run(tier, seed):
     R = C.Report(CID, tier, seed)
@@ -309,30 +389,8 @@ def run(tier, seed):
                         impl_labels=[l for l, _ in a], model_labels=[l for l, _ in b], first_diff=first,
                         impl_slice=F.layout(G.db_tokens(a[first][1])) if first < len(a) else None,
                         model_slice=F.layout(G.db_tokens(b[first][1])) if first < len(b) else None)))
-        # oracles on the real slices
-        for s in res['slices']:
-            n_slices += 1
-            sl = F.parse_db_str(s['ast'])
-            lab = s['label']
-            replay = dict(db=F.layout(G.db_tokens(db)), lemma=lab, slice=s['printed'], sd=res['sd'])
-            if s['reparse'] != s['ast']:
-                R.violation('slice:reparse-differs', 'a printed slice does not re-parse to the slice',
-                            dict(replay, reparse=s['reparse'], err=s['reparse_err']))
-                continue
-            probs = O.self_contained(db, sl, lab)
-            for p in probs:
-                sig = 'slice:not-self-contained:' + p.split(':')[0]
-                R.violation(sig, f'slice for {lab} is not self-contained: {p}', dict(replay, problem=p))
-            v_db = O.verify(db, lab)
-            if v_db[0]:
-                v_sl = O.verify(sl, lab)
-                R.hist['slice-oracle:verified'] = R.hist.get('slice-oracle:verified', 0) + 1
-                if not v_sl[0]:
-                    R.violation('slice:proof-no-longer-verifies:' + v_sl[1].split(':')[0].split(' ')[0],
-                                f'proof of {lab} verifies in the database but not in its slice: {v_sl[1]}',
-                                dict(replay, reason=v_sl[1]))
-            else:
-                R.hist['slice-oracle:lemma-invalid-in-db'] = R.hist.get('slice-oracle:lemma-invalid-in-db', 0) + 1
+        # oracles on the real slices (implementation only; independent of the model comparison above)
+        n_slices += slice_oracles(R, db, res)
         # other hash seeds: same slices modulo the $d order
         for hs in seeds[1:]:
             if j >= len(impl_s[hs]):
@@ -352,6 +410,49 @@ def run(tier, seed):
                 order_dependent += 1
     R.hist['slices-checked'] = n_slices
     R.hist['slice-dbs-with-hash-dependent-$d-order(note for C18)'] = order_dependent
+
+    # ---- 5a. history dependence: several databases parsed in ONE implementation process; each parse must equal
+    #          the parse of the same text in a fresh process, and the round-trip / slice oracles must hold on it
+    seqs = history_sequences(seed, 30 if quick else 400)
+    seq_res = run_impl([{'op': 'seq', 'texts': t} for t in seqs])
+    iso_reqs, iso_idx = [], []
+    for i, (texts, res) in enumerate(zip(seqs, seq_res)):
+        if 'error' in res:
+            mismatches.append(('runner-error', f'hist:{i}', res))
+            continue
+        for k in range(1, len(texts)):
+            iso_reqs.append({'op': 'text', 'text': texts[k]})
+            iso_idx.append((i, k, 'same-text'))
+            if res['seq'][k].get('printed') is not None:
+                iso_reqs.append({'op': 'text', 'text': res['seq'][k]['printed']})
+                iso_idx.append((i, k, 'printed'))
+    iso = run_impl_isolated(iso_reqs)
+    for (i, k, what), fresh in zip(iso_idx, iso):
+        item = seq_res[i]['seq'][k]
+        if 'error' in fresh:
+            mismatches.append(('runner-error', f'hist:{i}:{k}', fresh))
+            continue
+        hist_replay = dict(sequence=seqs[i][:k + 1], index=k, in_sequence=item.get('ast'), fresh_process=fresh.get('ast'))
+        R.case(('hist', i, k, what), True, f'history:{what}:{"same" if fresh.get("ast") == item.get("ast") else "DIFFERENT"}')
+        if what == 'same-text':
+            if fresh.get('ast') != item.get('ast') or fresh.get('parse_err') != item.get('parse_err'):
+                R.violation('parse:depends-on-earlier-parses',
+                            f'parse_database(text) after {k} earlier parse(s) in the same process differs from its parse in a fresh process',
+                            hist_replay)
+        else:
+            if fresh.get('ast') != item.get('ast'):
+                R.violation('roundtrip:parse-print-parse',
+                            'printing a parsed database and parsing the text again (fresh process) gives a different database',
+                            dict(hist_replay, printed=item.get('printed')))
+    for i, res in enumerate(seq_res):
+        if 'error' in res:
+            continue
+        for k, item in enumerate(res['seq']):
+            sres = item.get('slice')
+            if sres and 'slices' in sres and item.get('ast'):
+                n_slices += slice_oracles(R, F.parse_db_str(item['ast']), sres,
+                                          extra=dict(parsed_after=seqs[i][:k], note='database = AST parsed after the earlier texts in one process'))
+    R.hist['slices-checked'] = n_slices
 
     # ---- 5b. tie D: reference verifier model (Verify.v) vs the harness' Python verifier; model predicates on real slices
     vlines, vexp, vid = [], [], []
@@ -455,6 +556,14 @@ def replay(path):
     d = json.load(open(path))
     print(json.dumps(d, indent=1)[:6000])
     rp = d.get('replay', {})
+    if rp.get('sequence'):
+        seq = run_impl([{'op': 'seq', 'texts': rp['sequence']}], chunks=1)[0]
+        fresh = run_impl_isolated([{'op': 'text', 'text': rp['sequence'][-1]}])[0]
+        a, b = seq['seq'][-1].get('ast'), fresh.get('ast')
+        print('--- implementation now: last text parsed after the earlier ones:', a)
+        print('--- implementation now: last text parsed in a fresh process  :', b)
+        print('--- same' if a == b else '--- DIFFERENT')
+        return 0 if a == b else 1
     text = rp.get('db') or rp.get('text')
     if text:
         out = run_impl([{'op': 'slice', 'text': text}], chunks=1)[0]
